@@ -643,7 +643,7 @@ def fill_forward(check: Check) -> None:
 
 
 # ------------------------------------------------------------------------------------------------ V9 shapes
-def shapes(check: Check) -> None:
+def shapes(check: Check, only_kernels_of: tuple[str, ...] | None = None) -> None:
     """V9 [E on the shape lattice]: a batch of n rows keeps its row dimension through the pipeline and never meets the sampling dimension
     r except by broadcasting a column against a row (sa/shape.py):
       kernels (term.membership / tsukamoto, norm.compute, hedge.hedge) return the broadcast shape of their operands;
@@ -659,7 +659,7 @@ def shapes(check: Check) -> None:
     SELF = ("param", "self")
     undecided = 0
 
-    def run_case(fn, term: Term, env_map: dict, hook, want: tuple, construct: str, what: str) -> None:
+    def run_case(fn, term: Term, env_map: dict, hook, want: tuple, construct: str, what: str, protected: frozenset = frozenset()) -> None:
         nonlocal undecided
 
         def env(t: Term):
@@ -669,9 +669,11 @@ def shapes(check: Check) -> None:
                 return env_map.get(("self-attrs",), None)
             return None
 
-        se = ShapeEval(env, hook)
+        se = ShapeEval(env, hook, protected)
         try:
             got = se.ev(term)
+            if not isinstance(got, tuple):
+                got = TOP
         except ShapeError as ex:
             check.violation("V9", construct, f"{what}: {ex}", loc(fn))
             return
@@ -699,7 +701,11 @@ def shapes(check: Check) -> None:
             f = c.methods.get(m)
             if f is not None and not f.is_abstract:
                 kernels.append((c, m, f, 1))
+    if only_kernels_of is not None:
+        kernels = [k_ for k_ in kernels if "Term" in only_kernels_of]
     for bname, m in (("Norm", "compute"), ("Hedge", "hedge")):
+        if only_kernels_of is not None and bname not in only_kernels_of:
+            continue
         for c in p.subclasses(bname):
             f = c.methods.get(m)
             if f is not None and not f.is_abstract and c.name not in ("NormLambda", "NormFunction", "HedgeLambda", "HedgeFunction"):
@@ -716,12 +722,15 @@ def shapes(check: Check) -> None:
         if arity == 1:
             cases = [((), ()), (("n",), ("n",)), ((1, "r"), (1, "r")), (("n", "r"), ("n", "r"))]
             for s, want in cases:
-                run_case(f, t, {prm[0]: s, ("self-attrs",): ()}, nested_kernel_hook, want, f"{c.name}.{m}/shape{fmt(s)}", f"{c.name}.{m} on an argument of shape {fmt(s)}")
+                run_case(f, t, {prm[0]: s, ("self-attrs",): ()}, nested_kernel_hook, want, f"{c.name}.{m}/shape{fmt(s)}", f"{c.name}.{m} on an argument of shape {fmt(s)}",
+                         frozenset({"n", "r"}))
         else:
             cases2 = [((), ()), (("n",), ("n",)), (("n", 1), (1, "r")), ((), (1, "r")), (("n", "r"), ("n", "r"))]
             for a, b in cases2:
                 run_case(f, t, {prm[0]: a, prm[1]: b, ("self-attrs",): ()}, nested_kernel_hook, broadcast(a, b), f"{c.name}.{m}/shape{fmt(a)}x{fmt(b)}",
-                         f"{c.name}.{m} on operands of shapes {fmt(a)} and {fmt(b)}")
+                         f"{c.name}.{m} on operands of shapes {fmt(a)} and {fmt(b)}", frozenset({"n", "r"}))
+    if only_kernels_of is not None:
+        return
 
     # 2. Activated.membership
     act = p.cls("Activated")
